@@ -63,10 +63,12 @@ fn gen(t: &mut Tape, _tier: Tier) -> Scenario {
         }
         1 => {
             let n = t.range(1, 6) as usize;
+            let zeros = t.below(2) == 0;
             for _ in 0..n {
-                input.push(t.byte());
+                let b = t.byte();
+                input.push(if zeros { 0 } else { b });
             }
-            format!("{} bytes appended", n)
+            format!("{} {}bytes appended", n, if zeros { "zero " } else { "" })
         }
         _ => "intact".to_string(),
     };
